@@ -84,6 +84,7 @@ class RealBook:
         self.attempts = []
         self.errors = []
         orig = self.lp.start_outgoing_connection
+        self.unlogged_start = orig
 
         def logged(disc):
             self.attempts.append(((disc.host, disc.port, disc.direction), node.CLOCK[0], disc.ban_score))
@@ -293,6 +294,25 @@ def run(ctx):
             # attempts logged after the address was recognised as our own
             # (the recognition time is the hello event; attempts can only precede it)
             # recompute: find the index of the hello event in the trace and compare with attempt times
+        # duplicate keys in the outgoing direction: a second outgoing connection to an address whose first one is still
+        # recorded as connected (the manager's own step never does this; the quantification asks for it). Monitors only.
+        for _ in range(3):
+            outs = sorted([k for k in rb.nm.connected_peers if k[2] == OUTGOING], key=key_str)
+            if not outs:
+                clock[0] += 1800
+                apply_event(rb, ("step", clock[0]), [], [])
+                continue
+            k = rng.choice(outs)
+            from skepticoin.networking.remote_peer import DisconnectedRemotePeer
+            rb.guard(rb.unlogged_start, DisconnectedRemotePeer(k[0], k[1], OUTGOING, None, 0))      # not one of the manager's own attempts
+            trace.append("('duplicate outgoing connection', %r)" % (k,))
+            check_invariants(res, rb, trace, {})
+            clock[0] += rng.choice([0, 10, 100])
+            rb.ev_step(clock[0])
+            trace.append("('step', %d)" % clock[0])
+            check_invariants(res, rb, trace, {})
+            res.count("event:duplicate_outgoing")
+            res.case((si, "dup", k), nontrivial=True)
         res.count("attempts", len(rb.attempts))
         if len(res.samples) < 3:
             res.sample({"events": length, "attempts": ["%s@%d/%d" % (key_str(k), t, b) for k, t, b in rb.attempts][:8]})
